@@ -44,17 +44,15 @@ Theorem C20_adapter_reports : forall fuel sched buf got sched' got',
   exists used, sched = used ++ sched' /\ forallb benign used = true /\ got' = got ++ buf.
 Proof. exact write_all_ok_inv. Qed.
 
-(* callback failure => error status, for every phase except brotli's stream finish *)
-Theorem C20_cb_failure_partial : forall FNMAX TS TC TA TE H order s c s' ph,
-  capi_step FNMAX TS TC TA TE H order true s c = (s', Ret Success) -> io_of c = IoFail ph -> ph <> PhFinish ->
+(* callback failure => error status, in every phase (including brotli's stream finish, since
+   the repair of K20-FINISH) *)
+Theorem C20_cb_failure : forall FNMAX TS TC TA TE H order s c s' ph,
+  capi_step FNMAX TS TC TA TE H order true s c = (s', Ret Success) -> io_of c = IoFail ph ->
   no_io_call c = true.
 Proof. exact capi_cb_failure. Qed.
 
-(* FINDINGS: the clause "callbacks that report failure return an error status" is false of the
-   faithful model in two places (both reproduced on libmla.so by the harness) *)
-Theorem C20_refuted_finish : forall FNMAX TS TC TA TE H order,
-  exists s c s', capi_step FNMAX TS TC TA TE H order true s c = (s', Ret Success) /\ io_of c = IoFail PhFinish /\ no_io_call c = false.
-Proof. exact capi_cb_failure_refuted_finish. Qed.
+(* FINDING: the clause "callbacks that report failure return an error status" is false of the
+   faithful model in one place (reproduced on libmla.so by the harness) *)
 Theorem C20_refuted_eintr :
   exists sched buf, In (FailCb EINTR) sched /\ reports_failure (FailCb EINTR) = true /\
     write_all (write_all_fuel sched buf) sched buf [] = ([], buf, Ok tt).
